@@ -14,6 +14,9 @@ Lemma off_time_zero {T} (N : Num T) ivs p t :
   sig_time_pd N ivs p t = nzero N /\ bkg_time_pd N ivs p t = nzero N.
 Proof. unfold sig_time_pd, bkg_time_pd. intros ->. split; reflexivity. Qed.
 
+Ltac xred :=
+  cbn [nleb nltb neqb nmax nmin nsub nadd nzero none ndiv XNum xleb xltb xeqb xmax xmin xsub xadd xopp andb orb].
+
 Section Ext.
   Variable e : R -> R.
   Let X := XNum e.
@@ -66,7 +69,7 @@ Section Ext.
     length c = length w -> Rsum c = 0 -> List.Forall (fun x => x = 0) c ->
     eh_band X (map Fin c) (map Fin w) = map (fun _ => XNaN) c.
   Proof.
-    intros Hlen Hs Hc. unfold eh_band. rewrite nsum_fin, Hs.
+    intros Hlen Hs Hc. unfold eh_band. rewrite nsum_fin, Hs. clear Hs.
     revert w Hlen. induction Hc as [|x c Hx Hc IH]; intros [|y w] Hlen; try discriminate; [reflexivity|].
     cbn [map combine fst snd]. f_equal; [|apply IH; cbn in Hlen; lia].
     subst x. change (eh_div X (Fin 0) (eh_norm X (Fin 0) (Fin y))) with (xdiv (Fin 0) (xmul (Fin 0) (Fin y))).
@@ -97,17 +100,17 @@ Section Ext.
     sig_time_pd X [(Fin 0, Fin 1)] (Box (Fin (1 / 2)) (Fin (1 / 2))) (Fin (1 / 4)) = XNaN /\
     sig_time_pd X [(Fin 0, Fin 1)] (Box (Fin (1 / 2)) (Fin (1 / 2))) (Fin 2) = Fin 0.
   Proof.
-    assert (HS : S_of X [(Fin 0, Fin 1)] (Box (Fin (1 / 2)) (Fin (1 / 2))) = Fin 0).
-    { unfold S_of, S_terms, lt_between. cbn [p_start p_stop filter map fst snd nltb nleb X XNum xltb xleb].
-      rdec. cbn [andb filter map fst snd nmax nmin X XNum xmax xmin xltb prof_int].
-      rdec. unfold tp_box_int_m, tp_box_int_val, tp_box_int_lo, tp_box_int_hi.
-      cbn [nleb nmax nmin nsub nzero XNum xleb xmax xmin xltb andb]. rdec. cbn [andb xltb].
-      rdec. unfold nsum. cbn [fold_left nadd nzero XNum xsub xadd xopp]. f_equal. lra. }
+    unfold X.
+    assert (HS : S_of (XNum e) [(Fin 0, Fin 1)] (Box (Fin (1 / 2)) (Fin (1 / 2))) = Fin 0).
+    { unfold S_of, S_terms, lt_between, nsum, prof_int,
+        tp_box_int_m, tp_box_int_val, tp_box_int_lo, tp_box_int_hi.
+      cbn [p_start p_stop filter map fst snd fold_left].
+      repeat (xred; rdec).
+      cbn [filter map fst snd fold_left]. repeat (xred; rdec).
+      f_equal. lra. }
     split; [exact HS|].
-    repeat split; unfold sig_time_pd; rewrite HS; unfold lt_is_on;
-      cbn [existsb fst snd nleb nltb X XNum xleb xltb]; rdec; cbn [andb orb];
-      try reflexivity;
-      unfold prof_call, tp_box_call_m; cbn [nleb XNum xleb]; rdec; cbn [andb none nzero XNum];
+    repeat split; unfold sig_time_pd; rewrite HS; unfold lt_is_on, prof_call, tp_box_call_m;
+      cbn [existsb fst snd]; repeat (xred; rdec); try reflexivity;
       change (tp_sig_pd (XNum e) (Fin 0) ?a) with (xdiv a (Fin 0)); rewrite xdiv_zero.
     - destruct (Req_EM_T 1 0); [lra|]. destruct (Rlt_dec 0 1); [reflexivity | lra].
     - destruct (Req_EM_T 0 0) as [_|H]; [reflexivity | exfalso; apply H; reflexivity].
